@@ -108,8 +108,9 @@ Definition list_input (st : nstate) (lsub : bool) : list mmbox :=
                ++ map (fun n => (n, false)) (st_dsubs st)
   else map (fun r => (m_name r, true)) (visible_rows st).
 
+(* the reference argument is a mailbox for the command parser: INBOX in any case is INBOX *)
 Definition impl_list (d : N) (st : nstate) (lsub : bool) (ref pat : name) : list lmatch :=
-  get_matches d lsub ref pat (list_input st lsub).
+  get_matches d lsub (parse_mailbox ref) pat (list_input st lsub).
 
 (* ---------- Spec of LIST / LSUB: which (name, selectable) pairs are to be returned ---------- *)
 (* the names offered: the visible mailboxes (LIST) or the subscribed names (LSUB) *)
